@@ -21,7 +21,8 @@ from ..strategies import token
 
 ID = "C19"
 LEVEL = "exploration"
-RULE = ("generated molecules of 1-2 linear blocks of a single directed repeat unit (random small chemistry, symmetric units included) with "
+RULE = ("generated molecules of 1-3 linear blocks of a single directed repeat unit (neighbouring blocks with the same unit included: reference "
+        "summed over all splits that build the same molecule) (random small chemistry, symmetric units included) with "
         "prefix/end-group start and suffix/end-group end, 6 families with means of 2-6 units; every chain length until the reference tail "
         "< 1e-9 is queried in 3 random atom orders, plus foreign molecules; non-trivial = queried chain with >=2 units in some block; "
         "distinct = (molecule string, lengths)")
@@ -38,9 +39,10 @@ def plan(tier, seed):
 
 
 @st.composite
-def dist_for(draw, m):
-    fam = draw(st.sampled_from(["gauss", "uniform", "schulz_zimm", "log_normal", "poisson", "flory_schulz"]))
-    k = draw(st.floats(2.0, 5.0))
+def dist_for(draw, m, nb=1):
+    fam = draw(st.sampled_from(["gauss", "uniform", "schulz_zimm", "log_normal", "poisson", "flory_schulz"] if nb == 1 else
+                               ["gauss", "uniform", "schulz_zimm", "log_normal", "poisson", "gauss", "uniform"]))
+    k = draw(st.floats(2.0, 5.0)) if nb == 1 else draw(st.floats(1.3, 3.0))
     mean = float(f"{k * m:.4g}")
     if fam == "gauss":
         return Dist(fam, (mean, float(f"{mean / draw(st.sampled_from([7.0, 10.0, 20.0])):.4g}")))
@@ -59,7 +61,8 @@ def dist_for(draw, m):
 
 @st.composite
 def chain_case(draw):
-    nb = draw(st.sampled_from([1, 1, 2]))
+    nb = draw(st.sampled_from([1, 1, 2, 2, 3]))
+    prev_unit = None
     start_prefix = draw(st.booleans())
     end_suffix = draw(st.booleans())
     els, written = [], []
@@ -69,7 +72,10 @@ def chain_case(draw):
         written.append(pre.text_ext[: -len("[>|0|]")] if draw(st.booleans()) else pre.text_ext)
     for b in range(nb):
         last = b == nb - 1
-        if draw(st.integers(0, 3)) == 0:
+        if prev_unit is not None and draw(st.integers(0, 2)) == 0:
+            # the same repeat unit as the block before: a molecule then arises from several splits of its units over the blocks
+            unit = Tok.from_json(prev_unit.to_json())
+        elif draw(st.integers(0, 3)) == 0:
             # symmetric units (head and tail equivalent), written by hand
             unit = draw(st.sampled_from([
                 Tok(["C", "C"], [(0, 1, 1.0)], [(0, BD("<")), (1, BD(">"))], "[<]CC[>]"),
@@ -80,6 +86,7 @@ def chain_case(draw):
             ]))
         else:
             unit = draw(token([BD("<"), BD(">")], max_atoms=4, rings=False, min_heavy=2))
+        prev_unit = unit
         left = BD(">") if (start_prefix or b > 0) else BD("")
         right = BD("<") if (not last or end_suffix) else BD("")
         ends = []
@@ -88,7 +95,7 @@ def chain_case(draw):
         if right.symbol == "":  # tail-side end group: carries '<' and caps the open '>'
             ends.append(draw(token([BD("<")], max_atoms=2, rings=False, single_h=False)))
         m_unit = refchem.heavy_mass(unit)
-        d = draw(dist_for(max(m_unit, 12.0)))
+        d = draw(dist_for(max(m_unit, 12.0), nb))
         s = Stoch(left, right, [unit], ends, d, ("", " ", " ", ""))
         els.append(s)
         written.append(s.text())
@@ -202,10 +209,11 @@ def check(acc, m: Mol, seed):
     nmax = []
     for r, mu in zip(refs, mus):
         n = 1
-        while n < 40 and 1 - (r.cdf_int(n * mu) if r.family == "schulz_zimm" else r.cdf(n * mu)) > 1e-9:
+        cut = 1e-9 if len(refs) == 1 else 1e-6
+        while n < 40 and 1 - (r.cdf_int(n * mu) if r.family == "schulz_zimm" else r.cdf(n * mu)) > cut:
             n += 1
         nmax.append(n)
-    if max(nmax) > 10 or (len(nmax) == 2 and nmax[0] * nmax[1] > 36):
+    if max(nmax) > 10 or (len(nmax) >= 2 and int(np.prod(nmax)) > 100):
         acc.count("too_many_lengths_dropped")
         return
     end_start = stochs[0].left.symbol == "" and not isinstance(m.elements[0], Tok)
@@ -218,17 +226,28 @@ def check(acc, m: Mol, seed):
     tol_abs = 1e-7
     delta = sum(2.0 / r.mn for r in refs if r.family == "schulz_zimm")
     worst = None
+    # reference law over *molecules*: a molecule's probability is the sum over all unit-count tuples that build it
+    groups = {}
     for lengths in itertools.product(*[range(1, n + 1) for n in nmax]):
         p_ref = 1.0
         for r, mu, n in zip(refs, mus, lengths):
             p_ref *= p_block(r, mu, n)
         try:
             mol = build(m, lengths)
+            key = Chem.MolToSmiles(mol)
         except Exception as exc:  # noqa: BLE001
             acc.count("reference_molecule_not_buildable_dropped")
             return
+        g = groups.setdefault(key, [0.0, mol, []])
+        g[0] += p_ref
+        g[2].append(lengths)
+    total_ref = sum(g[0] for g in groups.values())  # 1 - (tails beyond the enumerated lengths)
+    if any(len(g[2]) > 1 for g in groups.values()):
+        acc.label("molecule_with_several_splits")
+    for key, (p_ref, mol, tuples) in groups.items():
+        lengths = tuples[0]
         # first query: RDKit's canonical atom order (what MolGen.smiles produces), then random atom orders
-        smis = [Chem.MolToSmiles(mol)] + random_smiles(mol, rng, 2)
+        smis = [key] + random_smiles(mol, rng, 2)
         vals = []
         for smi in smis:
             st_, res = probe.guarded(lambda: get_ensemble_prob(smi, big), seconds=120)
@@ -238,7 +257,8 @@ def check(acc, m: Mol, seed):
                               {**sig0, "error": type(res).__name__ if st_ == "raise" else st_}, size=len(text))
                 return
             vals.append(float(res[0]) if isinstance(res, tuple) else float(res))
-        acc.case((text, lengths) if max(lengths) >= 2 else None, labels=["fam:" + e.dist.family for e in stochs] + [f"end_start:{end_start}", f"symmetric:{any(symmetric)}"])
+        acc.case((text, lengths) if max(lengths) >= 2 else None, labels=["fam:" + e.dist.family for e in stochs] + [f"end_start:{end_start}", f"symmetric:{any(symmetric)}",
+                                                                                                         f"blocks:{len(nmax)}", f"splits:{min(len(tuples), 3)}"])
         if max(vals) - min(vals) > 1e-12 + 1e-9 * max(vals):
             acc.violation("atom_order", f"{text!r} lengths {lengths}: probability depends on the atom order of the query: {dict(zip(smis, vals))}",
                           {**case0, "lengths": list(lengths)}, sig0, size=len(text))
@@ -246,13 +266,14 @@ def check(acc, m: Mol, seed):
         total += got
         tol = tol_abs + 1e-6 * p_ref + delta
         if abs(got - p_ref) > tol and (worst is None or abs(got - p_ref) > worst[0]):
-            worst = (abs(got - p_ref), lengths, got, p_ref, smis[0])
+            worst = (abs(got - p_ref), tuples, got, p_ref, smis[0])
     if worst is not None:
-        _, lengths, got, p_ref, smi = worst
-        acc.violation("probability", f"{text!r}: chain with {lengths} units ({smi}) has ensemble probability {got:.9g}, generation probability is {p_ref:.9g}",
+        _, tuples, got, p_ref, smi = worst
+        lengths = tuples[0]
+        acc.violation("probability", f"{text!r}: chain with {tuples if len(tuples) > 1 else lengths} units ({smi}) has ensemble probability {got:.9g}, generation probability is {p_ref:.9g}",
                       {**case0, "lengths": list(lengths)}, {**sig0, "double_counted": bool(abs(got - 2 * p_ref) <= 2 * (tol_abs + 1e-6 * p_ref + delta))}, size=len(text))
-    elif abs(total - 1.0) > 1e-6 + 10 * delta + 1e-8 * len(nmax):
-        acc.violation("sums_to_one", f"{text!r}: probabilities over all chain lengths sum to {total:.9g}", case0,
+    elif abs(total - total_ref) > 1e-6 + 10 * delta + 1e-8 * len(nmax):
+        acc.violation("sums_to_one", f"{text!r}: probabilities over all chain lengths (reference mass {total_ref:.9g}) sum to {total:.9g}", case0,
                       {**sig0, "double_counted": bool(abs(total - 2.0) < 1e-5 + 20 * delta)}, size=len(text))
     # foreign molecules: a whole block without any repeat unit (generation always adds at least one)
     for bi in range(len(nmax)):
@@ -261,6 +282,8 @@ def check(acc, m: Mol, seed):
             f0 = Chem.MolToSmiles(build(m, lengths0))
         except Exception:  # noqa: BLE001
             continue
+        if f0 in groups:
+            continue  # with equal units in neighbouring blocks this molecule is a member of the ensemble
         st_, res = probe.guarded(lambda: get_ensemble_prob(f0, big), seconds=120)
         acc.count("foreign_queries")
         if st_ == "ok":
